@@ -115,27 +115,56 @@ def prepare_alt():
     run(["rsync", "-a", "--delete", os.path.join(ROOT, "lean") + "/", LEAN + "/"], timeout=900)
 
 
-def build_go(which=("vharness", "vtool")):
+def build_go(prop=None, which=("vharness", "vtool")):
+    """Builds the Go tools.  With a property, the binaries are private to that property
+    (.build/vharness-Cxx, .build/vtool-Cxx) and are compiled from cmd/<tool>/main.go plus only the files
+    that property needs (stream_<name>.go for its streams, prop["harness_files"], prop["tool_files"]),
+    so that builders working on other properties cannot break or clobber them."""
     os.makedirs(BUILD, exist_ok=True)
     # the module file is derived: same requirements as harness/go.mod, replace -> REPO, go.sum from REPO
     modfile = os.path.join(BUILD, "go.mod")
     src = open(os.path.join(HARNESS, "go.mod")).read()
     src = re.sub(r"replace github.com/onflow/cadence => \S+", "replace github.com/onflow/cadence => " + REPO, src)
-    with open(modfile, "w") as f:
-        f.write(src)
+    if not os.path.exists(modfile) or open(modfile).read() != src:
+        with open(modfile, "w") as f:
+            f.write(src)
     try:
         shutil.copy(os.path.join(REPO, "go.sum"), os.path.join(BUILD, "go.sum"))
     except OSError:
         pass
     out = []
     for w in which:
-        if not glob.glob(os.path.join(HARNESS, "cmd", w, "*.go")):
+        d = os.path.join(HARNESS, "cmd", w)
+        if not glob.glob(os.path.join(d, "*.go")):
             continue
-        rc, so, se, dt = run(["go", "build", "-modfile=" + modfile, "-tags", "verif", "-o", os.path.join(BUILD, w),
-                              "./cmd/" + w],
-                             cwd=HARNESS, env=go_env(), timeout=1500)
+        if prop is None:
+            target, outname = ["./cmd/" + w], w
+        else:
+            if w == "vharness":
+                files = ["stream_" + s_["name"].replace("-", "_") + ".go" for s_ in prop.get("streams", [])]
+                files += prop.get("harness_files", [])
+                if not prop.get("streams"):
+                    continue
+            else:
+                files = prop.get("tool_files", [])
+                if not prop.get("gen"):
+                    continue
+                if not files:
+                    files = [os.path.basename(f) for f in glob.glob(os.path.join(d, "tool_*.go"))]
+            files = ["main.go"] + sorted(set(files))
+            missing = [f for f in files if not os.path.exists(os.path.join(d, f))]
+            if missing:
+                out.append((w, 1, f"missing harness files in cmd/{w}: {missing}", 0.0))
+                continue
+            target, outname = [os.path.join("cmd", w, f) for f in files], f"{w}-{prop['id']}"
+        rc, so, se, dt = run(["go", "build", "-modfile=" + modfile, "-tags", "verif", "-o", os.path.join(BUILD, outname)]
+                             + target, cwd=HARNESS, env=go_env(), timeout=1500)
         out.append((w, rc, so + se, dt))
     return out
+
+
+def tool_path(prop, name):
+    return os.path.join(BUILD, f"{name}-{prop['id']}")
 
 
 def strip_lean_comments(src):
@@ -182,7 +211,7 @@ def run_stream(prop, stream, tier, seed, n, workdir, replay=None):
     drv = os.path.join(LEAN, ".lake", "build", "bin", stream["driver"])
     ops_path = os.path.join(workdir, f"{name}-{seed}.ops")
     res_path = os.path.join(workdir, f"{name}-{seed}.res")
-    cmd = [os.path.join(BUILD, "vharness"), name, "--seed", str(seed), "--n", str(n), "--tier", tier]
+    cmd = [tool_path(prop, "vharness"), name, "--seed", str(seed), "--n", str(n), "--tier", tier]
     corpus = os.path.join(ROOT, "corpus", name)
     if replay:
         cmd += ["--replay", replay]
@@ -268,7 +297,7 @@ def match_known(prop_id, viol, known):
 def check_property(prop, tier, seed, replay=None):
     t0 = time.time()
     pid = prop["id"]
-    workdir = os.path.join(WORK, pid)
+    workdir = os.path.join(WORK, f"{pid}-{os.getpid()}")   # private to this run (builders run checks concurrently)
     shutil.rmtree(workdir, ignore_errors=True)
     os.makedirs(workdir, exist_ok=True)
     os.makedirs(os.path.join(OUT, "evidence"), exist_ok=True)
@@ -279,12 +308,12 @@ def check_property(prop, tier, seed, replay=None):
     gen_changed = []
 
     # 1. Go tools (the translators are needed before the Lean build)
-    for w, rc, out, dt in build_go():
+    for w, rc, out, dt in build_go(prop):
         if rc != 0:
             broken.append((f"go-build:{w}", out[-3000:]))
     # 2. regenerate Gen/*
     for g in prop.get("gen", []):
-        cmd = [os.path.join(BUILD, g[0])] + g[1:]
+        cmd = [tool_path(prop, g[0])] + g[1:]
         rc, so, se, dt = run(cmd, cwd=ROOT, env=go_env(), timeout=600)
         if rc != 0:
             broken.append(("translator:" + " ".join(g), (so + se)[-3000:]))
@@ -480,12 +509,20 @@ def check_property(prop, tier, seed, replay=None):
 def setup():
     t0 = time.time()
     gen_lakefile()
-    for w, rc, out, dt in build_go():
+    props = load_props()
+    for w, rc, out, dt in build_go():          # whole binaries (by-hand use); per-property ones below
         log(f"go build {w}: rc={rc} {dt:.0f}s")
         if rc != 0:
             log(out[-3000:])
-            return 1
-    props = load_props()
+    failed = False
+    for p in props.values():
+        for w, rc, out, dt in build_go(p):
+            log(f"go build {w}-{p['id']}: rc={rc} {dt:.0f}s")
+            if rc != 0:
+                log(out[-3000:])
+                failed = True
+    if failed:
+        return 1
     # run all translators so that Gen/* exists before the Lean build
     seen = set()
     for p in props.values():
@@ -494,7 +531,7 @@ def setup():
             if key in seen:
                 continue
             seen.add(key)
-            rc, so, se, dt = run([os.path.join(BUILD, g[0])] + g[1:], cwd=ROOT, env=go_env(), timeout=900)
+            rc, so, se, dt = run([tool_path(p, g[0])] + g[1:], cwd=ROOT, env=go_env(), timeout=900)
             log(f"gen {' '.join(g)}: rc={rc} {dt:.1f}s")
             if rc != 0:
                 log((so + se)[-3000:])
